@@ -759,7 +759,7 @@ pub fn run(ops: &str, out: &mut dyn Write, mon: &mut dyn Write) {
                                 let mut h = s.handles.get(&addr).unwrap().clone();
                                 let sh = s.shared.clone();
                                 tokio::spawn(async move {
-                                    match h.add_poll(ReadRequest::class_scan(classes(c)), Duration::from_millis(period)).await {
+                                    match h.add_poll(ReadRequest::class_scan(classes(c)), if period == u64::MAX { Duration::MAX } else { Duration::from_millis(period) }).await {
                                         Ok(p) => {
                                             sh.new_poll.lock().unwrap().push((addr, p));
                                             sh.push("poll ok".to_string());
